@@ -5,6 +5,7 @@
   R-FOLLOW<=TERM   the separator ' ' and the closer ')' end every token kind
   R-CHAR-R6RS      every printable ASCII character written as #\\c is read back as itself
   R-NUM-ALPHABET   in radix 10 the reader accepts every continuation byte of itoa/ryu output
+  R-NUM-TEXT       the number printer writes exactly the text itoa / ryu produced, once, on every path
 Each clause is a necessary condition of the round trip; equality of values is not decided.
 """
 from .. import roundtrip
@@ -35,6 +36,7 @@ def run(ctx):
     serde = db.crate("serde_lexpr")
     c07.writeall(ctx, lexpr, serde)
     peculiar(ctx, lexpr)
+    num_text(ctx, lexpr)
     # the whole u64 and i64 range round-trips: the integer boundary magnitudes keep their representation (shared with C05)
     from . import c05
     c05.int_boundary(ctx.rule("R-INT-BOUNDARY", "parse_num_tail stores boundary magnitudes as the exact integer: "
@@ -70,3 +72,73 @@ def peculiar(ctx, lexpr):
                             "the name `%s%s...` is printed verbatim but a token starting with `%s%s` is read as %s"
                             % (chr(sign), chr(c), chr(sign), chr(c), sorted(kinds)), pt.loc())
     r.floor("cases", n)
+
+
+def num_text(ctx, lexpr):
+    """The number printer hands the sink the text itoa / ryu produced - the shortest text that reads back as the
+    same number - and nothing else: in every function that formats a number with itoa::Buffer / ryu::Buffer, on
+    every path, the only bytes written to the sink are that buffer's text, written once."""
+    from .. import facts as F, lex, sim
+    from ..sim import Opq
+    r = ctx.rule("R-NUM-TEXT", "the number printer writes exactly the text itoa / ryu produced for the number: no byte "
+                               "before it, after it or in its place, on any path")
+    FORMAT = ("itoa::Buffer::format", "ryu::Buffer::format", "ryu::Buffer::format_finite")
+    sites = []
+    for f in lexpr.fns:
+        if not f.file.endswith("print.rs"):
+            continue
+        for bi, t in f.calls():
+            if F.callee_names(t) & set(FORMAT) or any(t["callee"].get("path", "").startswith(x) for x in FORMAT):
+                sites.append(f)
+                break
+    r.floor("formatting-functions", len(sites))
+    inl = lex.print_inline(lexpr)
+    for f in sites:
+        def hook(S, fn, bb, t, args, path):
+            p = t["callee"].get("path", "")
+            nm = F.callee_names(t)
+            if any(p.startswith(x) for x in FORMAT):
+                return ("value", Opq("formatted-number"))
+            d = [S._deref(a, path) for a in args]
+            if d and isinstance(d[0], Opq) and d[0].root == "formatted-number" and (
+                    p.endswith("str::<impl str>::as_bytes") or p.endswith("::as_str") or nm & {
+                        "std::ops::Deref::deref", "std::convert::AsRef::as_ref", "std::borrow::Borrow::borrow"}):
+                return ("value", d[0])
+            return None
+
+        S = sim.Sim([lexpr], hooks={"call": hook}, inline=inl, max_paths=2000, max_depth=6, max_visits=4)
+        try:
+            paths = S.run(f)
+        except sim.Limit:
+            r.violation(f.path, "inexact", "path limit while evaluating %s" % f.path, f.loc())
+            continue
+        bad = None
+        npaths = 0
+        for p in paths:
+            if p.end == "panic":
+                continue
+            writes = []
+            for e in p.events:
+                if e[0] != "call":
+                    continue
+                if not any(n.startswith("std::io::Write::") or n.startswith("std::fmt::Write::") for n in e[1]):
+                    continue
+                if any(n.endswith("::flush") for n in e[1]):
+                    continue
+                a = [x for x in e[6][1:]]
+                writes.append("number-text" if len(a) == 1 and isinstance(a[0], Opq) and a[0].root == "formatted-number"
+                              else repr(a)[:60])
+            npaths += 1
+            # a path that fails in the sink may stop early; a completed one wrote the text exactly once
+            ok_ret = p.end == "return" and isinstance(p.ret, sim.Adt) and p.ret.adt.endswith("Result") and p.ret.variant == 0
+            if any(w != "number-text" for w in writes) or len(writes) > 1 or (ok_ret and len(writes) != 1):
+                bad = writes
+                break
+        if bad is None and npaths:
+            r.ok("%s writes the formatted text exactly once on each of %d path(s)" % (f.path, npaths), f)
+        elif bad is None:
+            r.violation(f.path, "inexact", "no path through %s could be evaluated" % f.path, f.loc())
+        else:
+            r.violation(f.path, "num-text", "%s can write %s to the sink: the printed number is no longer the shortest text "
+                                            "itoa / ryu produced and may not read back as the same number (e.g. `1e21.0`)"
+                        % (f.path, bad), f.loc())
